@@ -137,6 +137,104 @@ theorem Keep.trans {U : List Con} {s s' s'' : St} (h1 : Keep U s s') (h2 : Keep 
 theorem Keep.of_fe {U : List Con} {s s' : St} (hv : s'.fe.variables = s.fe.variables) (hm : s'.fe.models = s.fe.models) :
     Keep U s s' := ⟨fun v h => by rw [hv]; exact h, fun _ m h => by rw [hm]; exact h⟩
 
+/-! ### `_add` -/
+
+/-- what `_add(cs)` does to the fields of ConstrainedFrontend / FullFrontend, at any level of the stack: `new` are the
+constraints that were really added -/
+structure AddRel (s s' : St) (cs new : List Con) : Prop where
+  cons : s'.fe.constraints = s.fe.constraints ++ new
+  toAdd : s'.fe.toAdd = s.fe.toAdd ++ new
+  solver : s'.fe.solver = s.fe.solver
+  track : s'.fe.track = s.fe.track
+  fin : s'.fe.finalized = s.fe.finalized
+  objs : s'.objs = s.objs
+  reuse : s'.reuse = s.reuse
+  sub : ∀ c ∈ new, c ∈ cs
+  /-- a constraint that was not added had been seen before, or has the id of one that was added -/
+  cover : ∀ c ∈ cs, c ∈ new ∨ (c.id ∈ s.fe.hashes ∨ c.id ∈ s.fe.woAnnot) ∨ ∃ c' ∈ new, c'.id = c.id
+  vars : ∀ v, v ∈ s'.fe.variables ↔ v ∈ s.fe.variables ∨ ∃ c ∈ new, v ∈ c.vars
+  ids : ∀ i, (i ∈ s'.fe.hashes ∨ i ∈ s'.fe.woAnnot) → (i ∈ s.fe.hashes ∨ i ∈ s.fe.woAnnot) ∨ ∃ c ∈ new, c.id = i
+
+/-- the fields of ModelCacheMixin -/
+def mcFields (fe : Frontend) : List PModel × List Nat × List Nat × List Nat × List Nat × List Nat :=
+  (fe.models, fe.evalExh, fe.maxExh, fe.minExh, fe.maxSExh, fe.minSExh)
+
+/-- cached models are only dropped by `_add(cs)` when they violate `cs` -/
+def KeepAdd (E : Env) (s s' : St) (cs : List Con) : Prop :=
+  ∀ m ∈ s.fe.models, Models cs (m.complete E.dflt) → m ∈ s'.fe.models
+
+/-- every constraint of `cs` holds wherever the old constraints and the added ones hold -/
+theorem AddRel.implied {U : List Con} {s s' : St} {cs new : List Con} (hR : Reg R E) (hd : DInv R U s)
+    (hcs : ∀ c ∈ cs, R c) (h : AddRel s s' cs new) (a : Asg) (hU : Models U a) (hn : Models new a) : Models cs a := by
+  intro c hc
+  rcases h.cover c hc with hin | hseen | ⟨c', hc', hid⟩
+  · exact hn c hin
+  · exact hd.seen c (hcs c hc) hseen a ((models_iff_holdsAll U a).mp hU)
+  · rw [hR.faithful c c' (hcs c hc) (hcs c' (h.sub c' hc')) hid.symm a]
+    exact hn c' hc'
+
+theorem AddRel.models_iff {U : List Con} {s s' : St} {cs new : List Con} (hR : Reg R E) (hd : DInv R U s)
+    (hcs : ∀ c ∈ cs, R c) (h : AddRel s s' cs new) (a : Asg) : Models (U ++ new) a ↔ Models (U ++ cs) a := by
+  rw [models_append, models_append]
+  constructor
+  · rintro ⟨h1, h2⟩; exact ⟨h1, h.implied hR hd hcs a h1 h2⟩
+  · rintro ⟨h1, h2⟩; exact ⟨h1, fun c hc => h2 c (h.sub c hc)⟩
+
+/-- a literally false constraint among `cs`: the constraints are unsatisfiable afterwards -/
+theorem AddRel.unsat_of_false {U : List Con} {s s' : St} {cs new : List Con} (hR : Reg R E) (hd : DInv R U s)
+    (hcs : ∀ c ∈ cs, R c) (h : AddRel s s' cs new) (hf : cs.any (·.isFalse) = true) : ¬ Satisfiable (U ++ new) := by
+  rintro ⟨a, ha⟩
+  obtain ⟨c, hc, hcf⟩ := List.any_eq_true.mp hf
+  have := ((h.models_iff hR hd hcs a).mp ha)
+  have hca := (models_append.mp this).2 c hc
+  rw [(hR.wf c (hcs c hc)).2.1 hcf a] at hca
+  exact absurd hca (by simp)
+
+/-- the cacheless part of the invariant after `_add` -/
+theorem BInv.add {U : List Con} {s s' : St} {cs new : List Con} (hR : Reg R E) (h : BInv R G U s) (hcs : ∀ c ∈ cs, R c)
+    (ha : AddRel s s' cs new) : BInv R G (U ++ new) s' := by
+  refine ⟨⟨?_, ?_, ?_, ?_⟩, ?_, ⟨?_, ?_⟩, ?_, ?_⟩
+  · intro a hca
+    rw [ha.cons, holdsAll_append] at hca
+    rw [ha.toAdd, holdsAll_append]
+    simp only [Bool.and_eq_true] at hca ⊢
+    exact ⟨h.core.toAdd_sub a hca.1, hca.2⟩
+  · intro r hr
+    rw [ha.solver] at hr
+    obtain ⟨hlt, hfr, hsem⟩ := h.core.obj r hr
+    have hobj : objAt s' r = objAt s r := objAt_of_objs_eq ha.objs r
+    refine ⟨by rw [ha.objs]; exact hlt, by rw [hobj]; exact hfr, fun a => ?_⟩
+    rw [hobj, ha.toAdd, ha.cons, holdsAll_append, holdsAll_append]
+    simp only [Bool.and_eq_true]
+    constructor
+    · rintro ⟨h1, h2, h3⟩; exact ⟨(hsem a).mp ⟨h1, h2⟩, h3⟩
+    · rintro ⟨h1, h2⟩
+      have := (hsem a).mpr h1
+      exact ⟨this.1, this.2, h2⟩
+  · rw [ha.reuse]; exact h.core.noReuse
+  · rw [ha.track]; exact h.core.untracked
+  · intro a; rw [ha.cons, holdsAll_append, holdsAll_append, h.equiv a]
+  · intro c hc
+    rw [ha.cons] at hc
+    rcases List.mem_append.mp hc with hc | hc
+    · exact h.dinv.consR c hc
+    · exact hcs c (ha.sub c hc)
+  · intro c hc hi a hUa
+    rw [holdsAll_append] at hUa
+    simp only [Bool.and_eq_true] at hUa
+    rcases ha.ids c.id hi with hold | ⟨c', hc', hid⟩
+    · exact h.dinv.seen c hc hold a hUa.1
+    · rw [hR.faithful c c' hc (hcs c' (ha.sub c' hc')) hid.symm a]
+      exact (models_iff_holdsAll new a).mpr hUa.2 c' hc'
+  · intro c hc v hv
+    rw [ha.cons] at hc
+    rw [ha.vars]
+    rcases List.mem_append.mp hc with hc | hc
+    · exact Or.inl (h.vars c hc v hv)
+    · exact Or.inr ⟨c, hc, hv⟩
+  · obtain ⟨s0, hg, hw⟩ := h.ghost
+    exact ⟨s0, hg, hw.trans (WStep.of_fe ha.objs ha.reuse ha.solver ha.fin)⟩
+
 /-! ### specification shapes -/
 
 /-- the cache holds, for every tuple of the answer, a model that gives each expression whose variables the frontend
